@@ -13,7 +13,8 @@ META = {
              "8..72 bins), random spectral shapes on random frequency grids, sampling rates 0.5..10 Hz, even/odd "
              "signal lengths 8..20000, six components, seeds 0..2^32-1. Non-trivial = wave direction not a "
              "multiple of 90 degrees (2D) or 1D input, and >= 3 non-zero FFT bins; distinct = sha1 of the case."
-             " Two thirds of the cases re-use the same object directly after its last use: with a second sampling rate (compared bit-for-bit with a fresh object) and after scaling it in place."),
+             " Two thirds of the cases re-use the same object directly after its last use: with a second sampling rate (compared bit-for-bit with a fresh object) and after scaling it in place."
+             " A quarter of the short records use a spectrum defined exactly on the FFT bins of the record."),
     "assumptions": [
         "resampled spectrum recomputed independently with np.interp on the FFT bins k*fs/nfft, 0 outside the grid",
         "sample variance compared with sum_{k>=1} E_k*df (w: omega^2 weighting) at 1e-9 relative (DFT orthogonality makes it exact)",
